@@ -19,8 +19,8 @@ func init() {
 		Title:     "Go-to-XGo style conversion preserves behaviour",
 		Technique: "cross-table agreement between the formatter's fmt→builtin rewrite table and the compiler's builtin bindings, inverse-rule check of the lower-casing of called names against the compiler's capitalisation rule, and scope push/pop typestate of the shadowing tracker",
 		Explanation: "Decides the table- and shape-level necessary conditions of 'the converted program means the same': (1) every pair {fmt.G → x} of x/format.printFuncs (with the formatter's println→echo substitution) names a builtin that cl/builtin.go binds to exactly fmt.G (the initBuiltinFns list under its first-letter title-casing rule, plus the explicit echo→Println), so a rewritten call still calls the same function; " +
-			"(2) startWithLowerCase changes the FIRST letter only (A–Z → a–z) — the exact inverse of the compiler's lookup rule, which upper-cases only the first letter of a lower-case member name; (3) the shadowing tracker always pushes a NEW child scope in enterBlock (every path assigns ctx.scope = NewScope(previous,…) and returns the previous one), leaveBlock restores exactly its argument, and every enterBlock call is paired with a deferred leaveBlock of its result.",
-		NotCovered: "lambda conversion, command-style calls, import removal, and the precision of the shadowing test itself.",
+			"(2) startWithLowerCase changes the FIRST letter only (A–Z → a–z) — the exact inverse of the compiler's lookup rule, which upper-cases only the first letter of a lower-case member name; (3) the shadowing tracker always pushes a NEW child scope in enterBlock (every path assigns ctx.scope = NewScope(previous,…) and returns the previous one), leaveBlock restores exactly its argument, and every enterBlock call is paired with a deferred leaveBlock of its result. Block scopes (rule block-scope): every routine of x/format that walks a statement list (formatStmts) opens a scope of its own (enterBlock) on every path before the walk, so blocks, case clauses and communication clauses never share declarations with their siblings. Lambda arity (rule lambda-arity): every *ast.LambdaExpr the formatter builds is built under the guard len(Rhs) == the literal's result count, the requirement cl.checkLambdaFuncType enforces.",
+		NotCovered: "lambda conversion beyond the arity guard, command-style calls, import removal, and the precision of the shadowing test itself.",
 		Run:        runC25,
 		Controls: []Control{
 			{Name: "table-renames-sprint", File: f, Old: "\t{\"Sprint\", \"sprint\"},", New: "\t{\"Sprint\", \"sprintln\"},", Expect: "builtin-agreement/Sprint"},
@@ -28,6 +28,8 @@ func init() {
 			{Name: "echo-rebound", File: "cl/builtin.go", Old: "gogen.NewOverloadFunc(token.NoPos, builtin, \"echo\", fmt.Ref(\"Println\"))", New: "gogen.NewOverloadFunc(token.NoPos, builtin, \"echo\", fmt.Ref(\"Print\"))", Expect: "builtin-agreement/Println"},
 			{Name: "lowercase-acronyms", File: g, Old: "\tif c := v.Name[0]; c >= 'A' && c <= 'Z' {\n\t\tv.Name = string(c+('a'-'A')) + v.Name[1:]\n\t}", New: "\tn := 0\n\tfor n < len(v.Name) && v.Name[n] >= 'A' && v.Name[n] <= 'Z' {\n\t\tn++\n\t}\n\tv.Name = strings.ToLower(v.Name[:n]) + v.Name[n:]", Expect: "load/github.com/goplus/xgo/x/format"},
 			{Name: "lowercase-two-letters", File: g, Old: "\t\tv.Name = string(c+('a'-'A')) + v.Name[1:]", New: "\t\tv.Name = string(c+('a'-'A')) + string(v.Name[1]|0x20) + v.Name[2:]", Expect: "lowercase-inverse/startWithLowerCase"},
+			{Name: "lambda-forwarding-return", File: f, Old: "ok && len(stmt.Results) == nres {", New: "ok && (len(stmt.Results) == nres || len(stmt.Results) == 1) {", Expect: "lambda-arity/funcLitToLambdaExpr"},
+			{Name: "clause-body-in-switch-scope", File: "x/format/stmt_expr_or_type.go", Old: "\t\tformatExprs(ctx, v.List)\n\t\tformatClause(ctx, nil, v.Body)\n", New: "\t\tformatExprs(ctx, v.List)\n\t\tformatStmts(ctx, v.Body)\n", Expect: "block-scope/formatStmt"},
 			{Name: "scope-reused", File: g, Old: "\told := ctx.scope\n\tctx.scope = types.NewScope(old, token.NoPos, token.NoPos, \"\")\n\treturn old", New: "\told := ctx.scope\n\tif old.Parent() != nil && old.Len() == 0 {\n\t\treturn old\n\t}\n\tctx.scope = types.NewScope(old, token.NoPos, token.NoPos, \"\")\n\treturn old", Expect: "scope-discipline/enterBlock"},
 			{Name: "leave-not-deferred", File: "x/format/stmt_expr_or_type.go", Old: "\told := ctx.enterBlock()\n\tdefer ctx.leaveBlock(old)\n\tif stmt.Init != nil {", New: "\tctx.enterBlock()\n\tif stmt.Init != nil {", Expect: "scope-discipline/pairing"},
 		},
@@ -41,6 +43,8 @@ func runC25(c *core.Check) {
 		return
 	}
 	finfo, cinfo := fpk.TypesInfo, cpk.TypesInfo
+	c25LambdaArity(c, fpk, cpk)
+	c.Floor("lambda-arity", 2)
 
 	// ---------- (1) tables
 	// formatter side
@@ -299,8 +303,58 @@ func runC25(c *core.Check) {
 				return true
 			})
 		}
+		// block-scope: every statement list Go scopes as a block — BlockStmt.List, CaseClause.Body, CommClause.Body — is walked
+		// (formatStmts) by a routine that has opened a scope of its own on every path before the walk. Walking it in the
+		// enclosing scope lets `var fmt = …` of one branch shadow the package in its siblings.
+		if fs := fpk.Types.Scope().Lookup("formatStmts"); fs != nil && enter != nil {
+			nWalk := 0
+			for _, fd := range core.AllFuncDecls(fpk) {
+				if fd.Body == nil {
+					continue
+				}
+				var walks []*ast.CallExpr
+				ast.Inspect(fd.Body, func(n ast.Node) bool {
+					if call, ok := n.(*ast.CallExpr); ok && calleeObj(finfo, call) == fs {
+						walks = append(walks, call)
+					}
+					return true
+				})
+				if len(walks) == 0 {
+					continue
+				}
+				const bEntered flow.State = 1
+				unscoped := token.NoPos
+				p := &flow.Problem{Body: fd.Body, Info: finfo}
+				p.Node = func(n ast.Node, st flow.State, record bool) flow.State {
+					for _, call := range flow.Calls(n) {
+						switch calleeObj(finfo, call) {
+						case enter:
+							st |= bEntered
+						case fs:
+							if record && st&bEntered == 0 {
+								unscoped = call.Pos()
+							}
+						}
+					}
+					return st
+				}
+				flow.Solve(p)
+				nWalk++
+				name := core.FuncName(fd)
+				if why, ok := c25WalksInCallerScope[name]; ok {
+					c.Note("block-scope", name, fd.Pos(), "reviewed: "+why)
+					continue
+				}
+				c.Decide(!unscoped.IsValid(), "block-scope", name, unscoped, "opens a scope before walking the statement list", name+" walks a statement list (formatStmts) on a path where it has not opened a scope of its own (enterBlock): a block, case clause or communication clause is then formatted in the enclosing scope, and a declaration inside it (var fmt = …) is taken to shadow the package in the statements that follow the block")
+			}
+			c.Analysed("statement_list_walkers", nWalk)
+			c.Floor("block-scope", 2)
+		}
 		c.Analysed("enterBlock_sites", nEnter)
 		c.Decide(!bad.IsValid() && nEnter >= 6, "scope-discipline", "pairing", bad, core.Sprintf("%d enterBlock sites, each immediately followed by `defer leaveBlock(<its result>)`", nEnter),
 			"an enterBlock call is not immediately followed by `defer ctx.leaveBlock(<its result>)`: the block's declarations leak into the rest of the function (later fmt calls are treated as shadowed)")
 	}
 }
+
+// c25WalksInCallerScope: routines that walk a statement list without a scope of their own, reviewed.
+var c25WalksInCallerScope = map[string]string{}
